@@ -18,6 +18,8 @@ type Event struct {
 	Obj  string // mutex / cell identity
 	Arg  int    // child goroutine for fork
 	Site string
+	P    *value // memory cell (rd/wr)
+	M    *Map   // map object (rd/wr)
 }
 
 func (m *Machine) syncEvent(kind string, p *value) {
@@ -94,8 +96,8 @@ func (m *Machine) spawn(fr *frame, fn value, args []value) {
 
 // memEvent records a shared-memory access (only while event recording is on).
 func (m *Machine) memEvent(kind string, p *value) {
-	if m.RecordEvents && m.trackCell != nil && m.trackCell[p] {
-		m.events = append(m.events, Event{G: m.curG, Kind: kind, Obj: fmt.Sprintf("%p", p), Site: m.site()})
+	if m.RecordEvents && m.trackRoots != nil {
+		m.events = append(m.events, Event{G: m.curG, Kind: kind, Obj: fmt.Sprintf("%p", p), Site: m.site(), P: p})
 	}
 }
 
@@ -317,11 +319,26 @@ func (m *Machine) freeze(roots []value) {
 }
 
 func (m *Machine) track(roots []value) {
+	m.trackRoots = append(m.trackRoots, roots...)
+	m.retrack()
+}
+
+// retrack recomputes the set of cells and maps reachable from the tracked roots (objects
+// allocated after vxTrack, e.g. by a concurrent AddValue, belong to the shared state too).
+func (m *Machine) retrack() {
 	save, saveM, on := m.frozen, m.frozenM, m.freezeOn
 	m.frozen, m.frozenM = nil, nil
-	m.freeze(roots)
-	m.trackCell = m.frozen
-	m.trackMap = m.frozenM
+	m.freeze(m.trackRoots)
+	if m.trackCell == nil {
+		m.trackCell = map[*value]bool{}
+		m.trackMap = map[*Map]bool{}
+	}
+	for k := range m.frozen {
+		m.trackCell[k] = true
+	}
+	for k := range m.frozenM {
+		m.trackMap[k] = true
+	}
 	m.frozen, m.frozenM, m.freezeOn = save, saveM, on
 }
 
